@@ -342,11 +342,6 @@ def _(top):
 
     top.p0 = Periph()
     top.p1 = Periph()
-    names = {top.p0: "p0", top.p1: "p1"}
-
-    class Src:  # the two hooks CSRBankArray needs
-        def get_csrs(s):
-            return None
     banks = csr_bus.CSRBankArray(top, lambda name, mem: {"p0": 0, "p1": 1}[name], data_width=8)
     top.banks = banks
     bus = csr_bus.Interface(data_width=8)
@@ -497,6 +492,9 @@ def _(top):
             if mode == READ_FIRST:
                 self.comb += rp.re.eq(self.we)
             self.specials += MultiReg(self.sync_in, self.sync_out)
+            # several (name, value) attributes on one net: a set of str tuples, its iteration order follows PYTHONHASHSEED
+            self.sync_out.attr.update({("keep", "true"), ("mark_debug", "true"), ("async_reg", "true"), ("dont_touch", "true"),
+                                       ("max_fanout", 8), ("shreg_extract", "no")})
 
     top.s0 = Store(WRITE_FIRST, init=[1, 2, 3])
     top.s1 = Store(READ_FIRST)
